@@ -195,8 +195,8 @@ Definition partial_of (cur : qitem) : resp := {| r_id := id_of cur; r_status := 
 Definition finish_fresh (c : cfg) (s : st) (cur : qitem) (started : bool) (status : N) (ka_resp : bool) : st :=
   if closed s then exit_loop s                                    (* write fails: ConnectionResetError -> reset -> break *)
   else
-    (* if the handler had already started another response on this writer, the new head lands behind the
-       unfinished one (nothing in _handle_request/finish_response checks writer.output_size here) *)
+    (* if the handler had already started another response on this writer and RETURNS a fresh one, the new head lands
+       behind the unfinished one (finish_response does not check writer.output_size; only the exception paths do) *)
     let s0 := if started then push s (partial_of cur) else s in
     let s1 := push s0 {| r_id := id_of cur; r_status := status; r_done := true |} in
     payload_check c (set_ka s1 (ka_resp && negb (close_of cur))) cur.
@@ -209,12 +209,14 @@ Inductive outcome :=
   | OExc                             (* raises another Exception *)
   | OTimeout                         (* raises asyncio.TimeoutError *)
   | OCancel                          (* raises CancelledError *)
-  | OSwallow.                        (* returns a response whose prepare() failed and was swallowed: writer taken, nothing sent *)
+  | OSwallow.                        (* returns a response whose prepare() failed and was swallowed *)
 
 Definition on_done (c : cfg) (s : st) (cur : qitem) (started : bool) (o : outcome) : st :=
   match o with
   | ORet keep status => finish_fresh c s cur started status keep
-  | OHttp status => finish_fresh c s cur started status true
+  | OHttp status =>
+      (* _handle_request: output_size > 0 -> ConnectionError -> start() breaks, like handle_error *)
+      if started then exit_loop (push s (partial_of cur)) else finish_fresh c s cur false status true
   | OExc | OTimeout =>
       if started then exit_loop (push s (partial_of cur))         (* handle_error: output_size > 0 -> ConnectionError -> break *)
       else finish_fresh c s cur false (match o with OTimeout => timeout_status | _ => exception_status end) false
@@ -223,11 +225,12 @@ Definition on_done (c : cfg) (s : st) (cur : qitem) (started : bool) (o : outcom
       if started then
         if closed s then exit_loop (push s (partial_of cur))
         else payload_check c (set_ka (push s {| r_id := id_of cur; r_status := 200; r_done := true |}) (negb (close_of cur))) cur
-      else (* not started: same as a swallowed prepare *)
-        payload_check c (set_ka s (negb (close_of cur))) cur
+      else (* nothing was started: finish_response prepares and writes it now *)
+        finish_fresh c s cur false 200 true
   | OSwallow =>
-      (* prepare() is a no-op (writer already taken), write_eof() writes nothing: no error even on a dead transport *)
-      payload_check c (set_ka (if started then push s (partial_of cur) else s) (negb (close_of cur))) cur
+      (* StreamResponse._start un-started the response, so finish_response's prepare() fails again: the RuntimeError
+         leaves the handler task, start(): except Exception -> force_close() *)
+      exit_loop (do_close (if started then push s (partial_of cur) else s))
   end.
 
 (* ---- timers ----------------------------------------------------------------------------------- *)
